@@ -773,3 +773,164 @@ def gen_c08(rng, t):
 
 prop("C08", ["c08_decap_conserves", "c08_conservation"], ["DEC", "SYS"], gen_c08, [orc_c08],
      assumes=["C08 is proved for the bundled SimpleGseMemory; a foreign GseDecapMemory whose save_frag fails consumes the buffer by the trait's own signature"])
+
+
+# ------------------------------------------------------------------------------------------------
+# C01 / C02 round trips (sender output fed to the receiver, lock-step)
+# ------------------------------------------------------------------------------------------------
+def gen_c01(rng, t):
+    out = []
+    for i in range(900 * t):
+        c = Case("c01_%d" % i)
+        lab = rng.choice(LABELS)
+        pl = rng.choice([0, 1, rng.range(0, 40), rng.range(0, 300), near(rng, 4085, 4089, 4092, 4095, lo=0)])
+        maxpdu = rng.choice([0, pl, pl, max(0, pl - 1), pl + 5])
+        c.add("ENEW", "DNEW %d %d simple" % (rng.choice([0, 1, 2]), maxpdu))
+        nb = rng.range(1, 3)
+        for k in range(nb):
+            c.add("DPROV %d" % (max(maxpdu, pl) + 3 * k + rng.range(0, 2)))
+        pre = rng.below(4)
+        if pre == 1 and lab != "B":
+            c.add("ENCAP - 0 2048 %s 40 1" % lab, "DECAPN -", "DPROVBACK")     # same label: re-use next
+        elif pre == 2:
+            c.add("ENCAP - 0 2048 %s 40 1" % rng.choice(LABELS), "DECAPN -", "DPROVBACK")
+        elif pre == 3:
+            c.add("EDIS")
+        ll = lab_len(lab)
+        bl = rng.choice([4 + ll + pl, 4 + pl, 4 + ll + pl + rng.range(0, 9), 70000 if i % 97 == 0 else 4200, max(0, 4 + ll + pl - 1)])
+        pt = rng.choice([0x0600, 0x0800, 0x86DD, 0xFFFF])
+        c.add("ENCAP %s %d %d %s %d %d" % (pdu_tok(rng, pl), rng.below(256), pt, lab, bl, rng.below(999)))
+        c.add("DECAPL %s" % hx(rng.bytes(rng.choice([0, 0, 1, 2, 7]))))
+        c.meta["c01"] = True
+        out.append(c)
+    return out
+
+
+def orc_c01(case, obs):
+    bad = []
+    if not case.meta.get("c01"):
+        return bad
+    i = len(case.ops) - 2
+    t = case.ops[i].split(" ")
+    e = EncObs(obs[i])
+    pdu, pt, lab, bl = tok_bytes(t[1]), int(t[3]), t[4], int(t[5])
+    if e.panic:
+        return ["encap panics"]
+    wire_ll = 0
+    if e.ok:
+        wire_ll = LT_LEN[(e.pkt[0] >> 4) & 3]
+    else:
+        # would a re-use substitution apply? (previous packet of the case carried the same label, re-use enabled)
+        prev = [o for o in case.ops[:i] if o.startswith("ENCAP")]
+        sub = bool(prev) and prev[-1].split(" ")[4] == lab and lab != "B" and "EDIS" not in case.ops
+        wire_ll = 0 if sub else lab_len(lab)
+    must = (2 + wire_ll + len(pdu) <= 4095) and (4 + wire_ll + len(pdu) <= bl)
+    if must and not (e.ok and e.status == "C"):
+        bad.append("PDU, label and protocol type fit (%d+%d+2 <= 4095, buffer %d) but encap answered %s" % (len(pdu), wire_ll, bl, obs[i][:60]))
+    if e.ok and e.status == "C":
+        w, d = kv(obs[i + 1])
+        mx = int(case.ops[1].split(" ")[2])
+        if w[:2] != ["ok", "completed"]:
+            bad.append("completed packet of %d bytes not delivered: %s" % (e.n, obs[i + 1][:100]))
+        else:
+            if d["data"] != hx(pdu) or int(d["pdulen"]) != len(pdu):
+                bad.append("delivered bytes differ from the PDU")
+            if int(d["ptype"]) != pt or d["label"] != lab:
+                bad.append("delivered ptype/label %s/%s, sent %d/%s" % (d["ptype"], d["label"], pt, lab))
+            if int(d["consumed"]) != e.n:
+                bad.append("decap consumed %s, encap reported %d" % (d["consumed"], e.n))
+    return bad
+
+
+prop("C01", ["c01_roundtrip", "c01_must_complete"], ["ENC", "SYS"], gen_c01, [orc_c01])
+
+
+def gen_c02(rng, t):
+    out = []
+    for i in range(500 * t):
+        c = Case("c02_%d" % i)
+        lab = rng.choice(LABELS)
+        big = (i % 40 == 0)
+        pl = rng.choice([rng.range(1, 60), rng.range(1, 60), rng.range(60, 700), near(rng, 4090, 4096, 8190, lo=1)]) if not big \
+            else rng.choice([65535 - 2 - lab_len(lab), 65000, 20000])
+        slots = rng.choice([1, 2, 4])
+        c.add("ENEW", "DNEW %d %d simple" % (slots, pl), "DPROV %d" % (pl + rng.range(0, 3)))
+        fid = rng.below(256)
+        if rng.chance(0.3):
+            # an older reassembly sits in the slot: the new first fragment replaces it
+            c.add("DECAP %s" % hx(build_first(fid if rng.chance(0.5) else (fid + slots) % 256, 50, 0x0800, "B", b"\x01\x02")))
+            c.add("DPROV %d" % (pl + 10))
+        if rng.chance(0.3) and lab != "B":
+            c.add("ENCAP - 0 2048 %s 40 1" % lab, "DECAPN -", "DPROVBACK")
+        first = rng.range(7 + lab_len(lab), 7 + lab_len(lab) + min(pl, 40)) if not big else rng.choice([4097, 5000, 200])
+        c.add("ENCAP %s %d %d %s %d %d" % (pdu_tok(rng, pl), fid, rng.choice([0x0800, 0xFFFF]), lab, first, rng.below(99)))
+        c.add("DECAPN -")
+        mode = rng.below(4)
+        steps = min(pl + 3, 50) if not big else 40
+        for k in range(steps):
+            if big:
+                bl = rng.choice([4097, 4098, 5000, 70000, 3000])
+            elif mode == 0:
+                bl = 13
+            elif mode == 1:
+                bl = rng.choice([0, 3, 5, 7, 13, 14, 20])
+            elif mode == 2:
+                bl = rng.range(13, 60)
+            else:
+                bl = rng.choice([13, 100, 4097, 6000])
+            c.add("EFRAGC %d %d" % (bl, rng.below(99)), "DECAPN -")
+        c.meta["c02"] = True
+        out.append(c)
+    return out
+
+
+def orc_c02(case, obs):
+    bad = []
+    if not case.meta.get("c02"):
+        return bad
+    idx = max(i for i, o in enumerate(case.ops) if o.startswith("ENCAP"))
+    t = case.ops[idx].split(" ")
+    pdu, pt, lab = tok_bytes(t[1]), int(t[3]), t[4]
+    e = EncObs(obs[idx])
+    if not (e.ok and e.status == "F"):
+        return bad
+    ctx_len = e.ctx[2]
+    big13 = 0
+    done = False
+    pending = e.n       # length reported for the packet the next DECAPN delivers
+    for i in range(idx + 1, len(case.ops)):
+        op, ob = case.ops[i], obs[i]
+        if op.startswith("EFRAGC"):
+            if done:
+                continue
+            f = EncObs(ob)
+            if int(op.split(" ")[1]) >= 13:
+                big13 += 1
+                if f.err is not None:
+                    bad.append("13-byte (or larger) buffer rejected: %s" % ob[:60])
+            if f.ok:
+                pending = f.n
+                if f.status == "C":
+                    done = True
+                else:
+                    ctx_len = f.ctx[2]
+            rem_after_first = len(pdu) - e.ctx[2]
+            if not done and big13 > rem_after_first + 1:
+                bad.append("not completed after %d buffers of >= 13 bytes for %d remaining bytes" % (big13, rem_after_first))
+        elif op.startswith("DECAPN") and ob != "nopkt":
+            w, d = kv(ob)
+            if pending is not None and "consumed" in d and int(d["consumed"]) != pending:
+                bad.append("decap consumed %s, sender reported %d" % (d["consumed"], pending))
+            last = done and not any(o.startswith("DECAPN") and obs[j] != "nopkt" for j, o in enumerate(case.ops) if j > i)
+            if last:
+                if w[:2] != ["ok", "completed"] or d.get("data") != hx(pdu) or int(d["pdulen"]) != len(pdu) \
+                        or int(d["ptype"]) != pt or d["label"] != lab:
+                    bad.append("last packet: %s (expected the %d-byte PDU, ptype %d, label %s)" % (ob[:90], len(pdu), pt, lab))
+            else:
+                if w[:2] != ["ok", "fragmented"] or int(d["ptype"]) != pt or d["label"] != lab:
+                    bad.append("fragment answered %s (expected fragmented ptype %d label %s)" % (ob[:90], pt, lab))
+            pending = None
+    return bad
+
+
+prop("C02", ["c02_roundtrip", "c02_accepts_13", "c02_completes", "c02_schedule"], ["ENC", "DEC", "SYS"], gen_c02, [orc_c02])
